@@ -205,6 +205,45 @@ class CallSite:
         return 'Call(%s -> %s @%s bb%d)' % (self.fn.short, self.short, self.where(), self.bb)
 
 
+def _tail(s):
+    return s.rsplit('::', 1)[-1]
+
+
+def _moved_items(texts):
+    """{new path -> reviewed path} for ADTs and free functions of the reviewed tree (spec/known_functions.json)
+    that are missing under their reviewed path while exactly one item unknown to the reviewed tree has the
+    same name in the same crate: the item moved to another module (or its module was renamed)."""
+    kp = os.path.join(os.path.dirname(os.path.dirname(os.path.abspath(__file__))), 'spec', 'known_functions.json')
+    if not os.path.exists(kp):
+        return {}
+    known = json.load(open(kp))
+    out = {}
+    have_fn, have_adt = set(), set()
+    for t in texts.values():
+        d = json.loads(t)
+        have_fn.update(norm(k) for k, v in d['fns'].items() if v.get('kind') in ('Fn', 'AssocFn'))
+        have_adt.update(k for k in d['adts'] if '<' not in k and '::_::' not in k)
+    for kind, have, kn in (('adt', have_adt, set(known.get('adts', []))), ('fn', have_fn, set(known.get('functions', [])))):
+        if kind == 'fn':
+            # apply the ADT moves first: methods follow their type
+            have = {_apply_prefix(h, out) for h in have}
+        missing = [k for k in kn if k not in have and '<' not in k]
+        extra = [h for h in have if h not in kn and '<' not in h]
+        for m in missing:
+            c = [e for e in extra if e.split('::')[0] == m.split('::')[0] and _tail(e) == _tail(m)]
+            others = [m2 for m2 in missing if m2 != m and m2.split('::')[0] == m.split('::')[0] and _tail(m2) == _tail(m)]
+            if len(c) == 1 and not others:
+                out[c[0]] = m
+    return out
+
+
+def _apply_prefix(s, moved):
+    for a, b in moved.items():
+        if s == a or s.startswith(a + '::'):
+            return b + s[len(a):]
+    return s
+
+
 class Program:
     def __init__(self, facts_dir, inline=True):
         self.dir = facts_dir
@@ -217,11 +256,22 @@ class Program:
         self.coroutines = {}
         self.ext_enums = {}
         self.meta = {}
+        texts = {}
         for p in sorted(glob.glob(os.path.join(facts_dir, '*.json'))):
             base = os.path.basename(p)
             if base == 'DONE.json':
                 continue
-            d = json.load(open(p))
+            texts[base] = open(p).read()
+        self.moved = {}
+        if inline:
+            self.moved = _moved_items(texts)
+            if self.moved:
+                # an item that only changed its module path is given its reviewed path back, textually,
+                # everywhere in the fact base (ids, types, callees, impls): rules keep their anchors
+                pat = re.compile(r'(?<![\w:])(' + '|'.join(re.escape(k) for k in sorted(self.moved, key=len, reverse=True)) + r')(?![\w])')
+                texts = {b: pat.sub(lambda m: self.moved[m.group(1)], t) for b, t in texts.items()}
+        for base in sorted(texts):
+            d = json.loads(texts[base])
             crate = d['meta']['crate']
             target = base[:-5]
             self.meta[target] = d['meta']
